@@ -190,9 +190,29 @@ func (c *Ctx) Violations() int64 { return c.res.ViolCount }
 // shard. Each case gets its own PRNG determined by (seed, property, group, i).
 // A panic inside fn is recorded as a violation of class "panic:<group>".
 func (c *Ctx) Each(group string, n int64, fn func(i int64, r *Rand)) {
+	if FakeTime {
+		return // workers on the virtual clock run only the EachFT groups
+	}
+	c.each(group, n, fn)
+}
+
+// EachFT is Each for case groups that need the virtual process clock (long real pauses between
+// calls, playback of hour-long files): they run only in the workers built with the faketime tag.
+func (c *Ctx) EachFT(group string, n int64, fn func(i int64, r *Rand)) {
+	if !FakeTime {
+		return
+	}
+	c.each(group, n, fn)
+}
+
+func (c *Ctx) each(group string, n int64, fn func(i int64, r *Rand)) {
 	c.res.Groups[group] += 0
 	t0 := time.Now()
-	defer func() { c.res.GroupSecs[group] += time.Since(t0).Seconds() }()
+	secs := group
+	if FakeTime {
+		secs = group + " (seconds passed on the virtual clock)"
+	}
+	defer func() { c.res.GroupSecs[secs] += time.Since(t0).Seconds() }()
 	for i := int64(0); i < n; i++ {
 		if int(i%int64(c.NShards)) != c.Shard {
 			continue
@@ -208,6 +228,9 @@ func (c *Ctx) Each(group string, n int64, fn func(i int64, r *Rand)) {
 // EachBlock is like Each but shards by contiguous blocks (for enumerations where
 // the per-case cost is tiny and the index arithmetic should stay cheap).
 func (c *Ctx) EachBlock(group string, n int64, blk int64, fn func(lo, hi int64)) {
+	if FakeTime {
+		return
+	}
 	nb := (n + blk - 1) / blk
 	t0 := time.Now()
 	defer func() { c.res.GroupSecs[group] += time.Since(t0).Seconds() }()
